@@ -304,6 +304,11 @@ func c13IdleX(rc *simrt.RunCtx, mode string) {
 		// rarely here)
 		tkS.ping = tkC.ping + tkC.pong + time.Duration(2+rc.Pick(20, "knob.bpings"))*time.Second
 		lat = time.Duration(1+rc.Pick(20, "net.latfast")) * time.Millisecond
+		// the handshake timeout - which the data phase reuses as the minimum
+		// distance between two retransmissions of the queue - may be long
+		// (configured so, or boosted by SYN resends during a slow start)
+		hs := []time.Duration{500 * time.Millisecond, 500 * time.Millisecond, 15 * time.Second, 60 * time.Second}[rc.Pick(4, "knob.bhs")]
+		tkC.handshake, tkS.handshake = hs, hs
 	}
 	rc.Knob("N", n)
 	rc.Knob("client", tkC)
@@ -392,27 +397,61 @@ func c13IdleX(rc *simrt.RunCtx, mode string) {
 		total = 40 * (tkC.ping + tkC.pong + tkC.resend)
 		// the client fills its window (and tries to send a little more);
 		// every acknowledgement of that burst is lost, then the link is fine
+		var fmu sync.Mutex
 		from := rc.Now()
+		seen := map[byte]bool{} // DATA sequence numbers offered since the burst began
+		retransmitted := false  // ... one of them for the second time: the losses end there
+		np.c2s.mu.Lock()
+		np.c2s.onSend = func(b []byte) {
+			if len(b) >= 4 && b[0] == DATA {
+				fmu.Lock()
+				if seen[b[1]] {
+					retransmitted = true
+				}
+				seen[b[1]] = true
+				fmu.Unlock()
+			}
+		}
+		np.c2s.mu.Unlock()
 		np.s2c.mu.Lock()
 		np.s2c.filter = func(b []byte, now time.Duration) (byte, time.Duration) {
-			if len(b) > 0 && (b[0] == ACK || b[0] == NACK) && now-from < tkC.ping/2 {
+			fmu.Lock()
+			f, re := from, retransmitted
+			fmu.Unlock()
+			// only the acknowledgements of the burst's first transmissions
+			// are lost: whatever answers a retransmission (the keepalive's
+			// probe among them) gets through
+			if len(b) > 0 && (b[0] == ACK || b[0] == NACK) && !re && now >= f && now-f < tkC.ping/2 {
 				rc.Probe("c13.burst-ack-lost")
 				return 'x', 0
 			}
 			return 0, 0
 		}
 		np.s2c.mu.Unlock()
-		k := int(n) + rc.Pick(3, "wl.burst-extra")
+		bursts := 1 + rc.Pick(2, "wl.bursts")
 		wg.Add(1)
 		go func() {
 			defer wg.Done()
-			for i := 0; i < k; i++ {
-				if cli.Send(mkMsg('A', 9000+i, 30)) != nil {
-					return
+			for bi := 0; bi < bursts; bi++ {
+				if bi > 0 {
+					// a second episode a little later (after the first
+					// one has been repaired by the probe or a resend)
+					time.Sleep(tkC.ping + tkC.pong + tkC.resend + time.Duration(rc.Pick(5000, "wl.burst-gap"))*time.Millisecond)
+					fmu.Lock()
+					from = rc.Now()
+					seen = map[byte]bool{}
+					retransmitted = false
+					fmu.Unlock()
 				}
+				k := int(n) + rc.Pick(3, "wl.burst-extra")
+				for i := 0; i < k; i++ {
+					if cli.Send(mkMsg('A', 9000+100*bi+i, 30)) != nil {
+						return
+					}
+				}
+				rc.Fault("ack-burst-lost")
 			}
 		}()
-		rc.Fault("ack-burst-lost")
 	}
 	rc.Sample("N=%d client[%v] server[%v] one-way latency %v write-call lag %v idle for %v", n, tkC, tkS, lat, lag, total)
 	start := rc.Now()
